@@ -219,7 +219,7 @@ def check(ctx):
                         kn = known.get(gid)
                         if isinstance(v, float) and v != v and 'K9' in known_ids:
                             kn = 'K9'
-                        if outcome.startswith('untyped') and v is None and s['cls'] == 'Opytimizer' and 'K10c' in known_ids:
+                        if outcome == 'untyped:AttributeError' and not hasattr(v, 'built') and s['cls'] == 'Opytimizer' and 'K10c' in known_ids:
                             kn = 'K10c'
                         C.issue('domain-disagrees-with-setter', 'oracle', rp, outcome=outcome, in_documented_domain=should,
                                 guard=gid, known=kn)
@@ -228,7 +228,7 @@ def check(ctx):
                         want = {'typeError': 'TypeError', 'valueError': 'ValueError', 'sizeError': 'SizeError',
                                 'argumentError': 'ArgumentError', 'buildError': 'BuildError'}.get(s['guards'][first]['err'])
                         if outcome != want:
-                            kn = 'K10c' if (outcome.startswith('untyped') and v is None and s['cls'] == 'Opytimizer' and 'K10c' in known_ids) else None
+                            kn = 'K10c' if (outcome == 'untyped:AttributeError' and not hasattr(v, 'built') and s['cls'] == 'Opytimizer' and 'K10c' in known_ids) else None
                             if outcome == 'untyped:ValueError' and s['cls'] == 'Node' and isinstance(v, np.ndarray) and v.size > 1 and 'K10b' in known_ids:
                                 kn = 'K10b'   # `if x:` / `x not in [...]` on an array: NumPy's own ValueError
                             C.issue('wrong-error-class', 'oracle', rp, outcome=outcome, expected=want, known=kn)
@@ -267,6 +267,47 @@ def check(ctx):
                         C.issue('constructor-did-not-store', 'oracle', dict(how='ctor', cls=name, attr=attr, value=repr(val)))
                 except Exception as ex:
                     C.issue('constructor-rejects-default', 'oracle', dict(how='ctor', cls=name, attr=attr, value=repr(val)), got=type(ex).__name__)
+        # ordered min/max pairs through the constructor dictionary, in both key orders: a pair is legal iff
+        # min <= max, whatever the defaults and whatever the order in which the dictionary lists the keys
+        for s_ in tables['setters']:
+            for g in s_['guards']:
+                cd = g['cdesc']
+                if cd and cd[0] == 'ltAttr' and s_['cls'] in L['kinds']:
+                    K = L['kinds'][s_['cls']]
+                    hi_attr, lo_attr = s_['attr'], cd[1]
+                    d_hi, d_lo = getattr(K(), hi_attr), getattr(K(), lo_attr)
+                    span_ = max(abs(d_hi), abs(d_lo), 1.0)
+                    for lo_v, hi_v in ((d_lo - 0.5 * span_ if d_lo - 0.5 * span_ >= 0 else 0.0, d_lo * 0.5 if d_lo > 0 else 0.0),
+                                       (d_hi + 0.25 * span_, d_hi + 0.5 * span_), (d_hi + 0.5 * span_, d_hi + 0.25 * span_),
+                                       (d_lo, d_lo), (d_hi * 0.9, d_hi * 0.5)):
+                        for order in ('lo-first', 'hi-first'):
+                            hp = {lo_attr: lo_v, hi_attr: hi_v} if order == 'lo-first' else {hi_attr: hi_v, lo_attr: lo_v}
+                            # unit-interval companions (PAR, probabilities) stay inside [0, 1]
+                            rp = dict(how='ctor-pair', cls=s_['cls'], attrs=[lo_attr, hi_attr], values=[lo_v, hi_v], order=order)
+                            legal = lo_v <= hi_v
+                            try:
+                                o3 = K(hyperparams=hp)
+                                ok = True
+                                stored = (getattr(o3, lo_attr), getattr(o3, hi_attr))
+                            except (e.TypeError, e.ValueError):
+                                ok, stored = False, None
+                            except Exception as ex:
+                                C.issue('constructor-untyped-error', 'oracle', rp, got=type(ex).__name__)
+                                continue
+                            # values outside the attributes' own domains (e.g. > 1 for a unit-interval pair) are not a pair question
+                            try:
+                                pa, pb = K(), K()
+                                setattr(pa, lo_attr, lo_v)
+                                setattr(pb, hi_attr, max(hi_v, getattr(pb, lo_attr)))
+                                in_own_domains = True
+                            except Exception:
+                                in_own_domains = False
+                            if in_own_domains:
+                                if ok != legal:
+                                    C.issue('constructor-pair-validation-depends-on-key-order' if order == 'hi-first' else 'constructor-pair-validation', 'oracle', rp, accepted=ok, legal=legal)
+                                elif ok and stored != (lo_v, hi_v):
+                                    C.issue('constructor-did-not-store', 'oracle', rp, stored=stored)
+                            C.case(key=('ctor-pair', s_['cls'], lo_attr, hi_attr, lo_v, hi_v, order), nontrivial=True, kind='ctor-pair')
         C.extra['guards_in_table'] = n_guards
         C.extra['setters'] = sum(1 for s in tables['setters'] if s['guards'])
     finally:
